@@ -286,6 +286,9 @@ func e2eRun(t *testing.T, r *vRand, p e2eParams) (term string, desc map[string]i
 				listMtx.Unlock()
 				lg.add("XStartBegin", "%s %s %s", gN(vmn), gN(e2eUUIDNum(uuid)), gBool(booting))
 				rc := inner(env, command, stdin, stdout, stderr)
+				listMtx.Lock()
+				listDirty = true // the next answer must be logged even if it repeats the previous one
+				listMtx.Unlock()
 				lg.add("XStartEnd", "%s %s %s", gN(vmn), gN(e2eUUIDNum(uuid)), gBool(rc == 0))
 				return rc
 			case command == "crunch-run --list":
